@@ -77,6 +77,22 @@ Proof.
     rewrite (cs_shape_no_head _ (constraints_cs_shape G defs cs Hc HG c Hcin)). reflexivity.
 Qed.
 
+(* the empty completed definitions of the missing OUTPUT predicates (/repo <COMMIT-F17>) are
+   public: they never are Assumption formulas *)
+Lemma assumptions_missing_outputs public outs D :
+  incl outs public ->
+  assumptions_of (control_translate public (D ++ missing_output_definitions outs D))
+  = assumptions_of (control_translate public D).
+Proof.
+  intros Hi. unfold control_translate. rewrite !assumptions_of_control_translate, filter_app.
+  rewrite (filter_none (is_private_def public) (missing_output_definitions outs D)); [apply app_nil_r|].
+  intros f Hf. unfold missing_output_definitions in Hf. apply in_map_iff in Hf. destruct Hf as [q [<- Hq]].
+  unfold iset_diff in Hq. apply filter_In in Hq. destruct Hq as [Hq _].
+  unfold is_private_def, empty_definition. rewrite head_predicate_complete_definition. cbn [fst].
+  rewrite atomic_formula_from_pred. apply negb_false_iff.
+  destruct (memb_spec pred_dec q public) as [_|Hn]; [reflexivity|]. exfalso. exact (Hn (Hi q Hq)).
+Qed.
+
 (* ------------------------------------------------------------------ Clark's reading, one predicate set at a time *)
 (* C04_clark (Proofs/CompletionOk.v) for the completed definitions of the predicates in S only *)
 Theorem clark_filtered G defs cs ins (S : pred -> Prop) FI I :
@@ -216,11 +232,18 @@ Proof.
   assert (Hrl : forall f, In f (rp_theory m G) -> rule_like f).
   { intros f Hf. unfold rp_theory in Hf. apply in_map_iff in Hf. destruct Hf as [f0 [<- Hf0]].
     apply rule_like_rp. eapply tau_star_rule_like_all; eauto. }
-  assert (Hcl : forall f, In f D -> classified f) by (eapply completion_all_classified; eauto).
+  cbv zeta in Htr. set (outs := ug_output_predicates (et_user_guide t)) in *.
+  assert (Hcl : forall f, In f (D ++ missing_output_definitions outs D) -> classified f).
+  { intros f Hf. apply in_app_or in Hf. destruct Hf as [Hf|Hf].
+    - eapply completion_all_classified; eauto.
+    - eapply missing_outputs_classified; eauto. }
+  assert (Hop : incl outs public).
+  { intros q Hq. unfold public, ug_public_predicates. apply in_iset_extend. right. exact Hq. }
   assert (E : tvalid FI M (assumptions_of (control_translate public th)) <->
               tvalid FI M (assumptions_of (control_translate public D))).
-  { injection Htr as <-. destruct (et_simplify t); [|reflexivity].
-    rewrite (assumptions_simplified fuel public D Hcl). unfold tvalid. apply simp_theory_sound. }
+  { injection Htr as <-. rewrite <- (assumptions_missing_outputs public outs D Hop).
+    destruct (et_simplify t); [|reflexivity].
+    rewrite (assumptions_simplified fuel public _ Hcl). unfold tvalid. apply simp_theory_sound. }
   rewrite E. clear E.
   apply (private_definitions_supported FI (ph_program FI m P) (rp_theory m G) D ins public); auto.
   - apply rp_tau_star_represents. exact Hts.
